@@ -266,6 +266,13 @@ pub fn strip_stream_write_chunked(chunks: &[&[u8]]) -> Result<Vec<u8>, String> {
     let mut s = anstream::StripStream::new(Vec::new());
     for c in chunks {
         let mut rest: &[u8] = c;
+        if rest.is_empty() {
+            // a zero-length write is legal and must report 0
+            let n = s.write(rest).map_err(|e| format!("write of an empty buffer failed: {e}"))?;
+            if n != 0 {
+                return Err(format!("write returned {n} for an empty buffer"));
+            }
+        }
         while !rest.is_empty() {
             let n = s.write(rest).map_err(|e| format!("write failed: {e}"))?;
             if n == 0 || n > rest.len() {
